@@ -447,7 +447,7 @@ Proof.
     { apply NoDup_remove_2 in Hnd. intro Hin. apply Hnd. apply in_or_app. now left. }
     destruct fast.
     + destruct (lyds_append_ok s x Hok (Hf eq_refl) Hx) as (Hok1 & Hn1).
-      destruct (IH (lyds_append s x) (dup_alone ideq true after (lyds_append s x) x) Hok1 (fun _ => Hn1)) as (s' & E & Hok' & Hi & Hp).
+      destruct (IH (lyds_append s x) true Hok1 (fun _ => Hn1)) as (s' & E & Hok' & Hi & Hp).
       { cbn [lyds_append sibs]. rewrite <- app_assoc. exact Hnd. }
       exists s'. split; [exact E|]. split; [exact Hok'|]. split.
       * rewrite Hi. cbn [lyds_append sibs]. now rewrite isort_snoc.
